@@ -590,6 +590,8 @@ func (w *World) RunCall(conn grpc.ClientConnInterface, spec *CallSpec) {
 		case "waitdone":
 			// wait until the RPC has been finished from the other side (its context is done)
 			w.WaitUntil("c:waitdone", func() bool { return cs.Context().Err() != nil })
+		case "waitsaid":
+			w.WaitUntil("c:waitsaid", func() bool { return w.Vals["peer-said-all"] != nil || w.Vals["rpc-done"] != nil })
 		case "waitpeer":
 			// wait until the scripted peer has nothing more to say (it parks at raw:rpc-done
 			// or has finished) - the explorer decides when the caller then proceeds
